@@ -341,6 +341,15 @@ pub fn dump_write(txn: &WriteTransaction) -> R<Contents> {
     Ok(out)
 }
 
+/// An unexpected savepoint error: a storage failure underneath is a storage error (expected only
+/// under fault injection), anything else contradicts the model
+pub fn sp_fail(text: String, e: &SavepointError) -> Fail {
+    match e {
+        SavepointError::Storage(_) => Fail::Storage(text),
+        _ => Fail::Oracle(text),
+    }
+}
+
 pub fn list_psp(txn: &WriteTransaction) -> R<BTreeSet<u64>> {
     Ok(txn
         .list_persistent_savepoints()
@@ -826,7 +835,7 @@ impl World {
                     });
                     self.bump("sp.ephemeral_created");
                 }
-                Err(e) => return oracle(format!("ephemeral_savepoint on a clean transaction failed: {e}")),
+                Err(e) => return Err(sp_fail(format!("ephemeral_savepoint on a clean transaction failed: {e}"), &e)),
             }
         }
         if plan.psp_create {
@@ -853,7 +862,7 @@ impl World {
                     ensure!(!durable, "persistent_savepoint refused with ImmediateDurabilityRequired in a durable transaction");
                     self.bump("sp.persistent_refused_nondurable");
                 }
-                Err(e) => return oracle(format!("persistent_savepoint failed: {e}")),
+                Err(e) => return Err(sp_fail(format!("persistent_savepoint failed: {e}"), &e)),
             }
         }
         if let Some(pick) = plan.psp_delete {
@@ -880,7 +889,7 @@ impl World {
                 Err(SavepointError::ImmediateDurabilityRequired) => {
                     ensure!(!durable, "delete_persistent_savepoint refused in a durable transaction");
                 }
-                Err(e) => return oracle(format!("delete_persistent_savepoint failed: {e}")),
+                Err(e) => return Err(sp_fail(format!("delete_persistent_savepoint failed: {e}"), &e)),
             }
         }
         if persistent_modified && self.rng.chance(1, 4) {
@@ -948,7 +957,7 @@ impl World {
                             );
                             None
                         }
-                        Err(e) => return oracle(format!("get_persistent_savepoint({id}) failed: {e}")),
+                        Err(e) => return Err(sp_fail(format!("get_persistent_savepoint({id}) failed: {e}"), &e)),
                     }
                 } else {
                     Some(txn.restore_savepoint(&self.esp[idx].sp))
@@ -1006,7 +1015,7 @@ impl World {
                             );
                             self.bump("sp.restore_refused_durability");
                         }
-                        Err(e) => return oracle(format!("restore_savepoint failed: {e}")),
+                        Err(e) => return Err(sp_fail(format!("restore_savepoint failed: {e}"), &e)),
                     }
                 }
             }
@@ -1017,7 +1026,7 @@ impl World {
             match txn.ephemeral_savepoint() {
                 Err(SavepointError::InvalidSavepoint) => self.bump("sp.refused_dirty"),
                 Ok(_) => return oracle("ephemeral_savepoint accepted in a dirty transaction".into()),
-                Err(e) => return oracle(format!("ephemeral_savepoint in dirty txn: unexpected {e}")),
+                Err(e) => return Err(sp_fail(format!("ephemeral_savepoint in dirty txn: unexpected {e}"), &e)),
             }
         }
 
